@@ -185,7 +185,7 @@ def build_attrs(entries: dict[str, Any], f: Forest) -> list[Any]:
 	return out
 
 
-MODS = ['ma', 'mb', 'mc']
+MODS = ['m', 'ma', 'mab']  # prefixes of each other: the module part of a key must be compared as a whole
 NAMES = ['A', 'B', 'C', 'D', 'E', 'F', 'G', 'H', 'T', 'U', 'int', 'str', 'list', 'dict']
 
 
@@ -535,6 +535,122 @@ def stream_table_stub(ctx: Ctx) -> Stream:
 		'ops: to_json(None | module), unload, import_json (exported rows; permuted rows; rows with a damaged origin/via/node/decl/types/attrs; import over the loaded module), '
 		'import again, completed, has_module, every entry observed (types/node/decl DSN, via key, attribute forest)')
 	return st
+
+
+# ---------------------------------------------------------------------------------------------
+# search on stub tables: the same laws with oracles written independently of the code under test
+
+
+def stub_sym(s: Any) -> tuple[str, str, str, Forest]:
+	return (dsn_of(s.types), dsn_of(s.node), dsn_of(s.decl), obs_forest(s.attrs))
+
+
+def search_stub_laws(ctx: Ctx) -> SearchResult:
+	"""flatten = independent pre-order walk; rebuild ∘ flatten = id; export → import restores; import twice; completed; order law —
+	on real Symbol/Reflection/SymbolDB/ReflectionSerializer objects over stub nodes, tables in dependency order (so every law must hold)."""
+	import rogw.tranp.lang.sequence as seqs
+	from rogw.tranp.semantics.reflection.db import SymbolDB
+	from rogw.tranp.semantics.reflection.serializer import ReflectionSerializer
+	rng = ctx.sub_rng('stub-laws')
+	res = SearchResult('stub tables: expand = own pre-order walk, rebuild∘flatten = id, export→import restores every entry, import twice, completed, order law')
+	hist: Counter[str] = Counter()
+	seen: set[str] = set()
+	seen_keys: set[str] = set()
+
+	def found(key: str, what: str, replay: dict[str, Any]) -> None:
+		hist[key] += 1
+		if key not in seen_keys:
+			seen_keys.add(key)
+			res.findings.append(Finding(key=key, what=what, replay=replay))
+
+	traits = StubTraits()
+	for i in range(ctx.scale(600, 6000)):
+		res.cases += 1
+		entries, nodes = stub_classes(rng, traits, rng.randint(2, 9))
+		keys = list(entries)
+		f = gen_forest(rng, 1 + i % 5, 1 + i % 4, keys, wide=i % 5 == 0)
+		seen.add(forest_sexp(f))
+		rep = {'forest': forest_sexp(f), 'keys': keys}
+		# (a) expand against the independent walk
+		try:
+			flat = seqs.expand(build_attrs(entries, f), iter_key='attrs')
+			got = {p: a.types.fullyname for p, a in flat.items()}
+			if list(got.items()) != list(py_flatten(f).items()):
+				found('stub:expand', f'seqs.expand differs from the pre-order walk: {flat_text(got)[:200]} vs {flat_text(py_flatten(f))[:200]}', rep)
+		except Exception as e:  # noqa: BLE001
+			found(f'stub:expand:raises:{exc_enum(e)}', str(e)[:200], rep)
+		# (b) rebuild ∘ flatten = id
+		try:
+			db = SymbolDB()
+			for k, e in entries.items():
+				db[k] = e
+			ser = ReflectionSerializer(StubEntrypoints(), traits)  # type: ignore[arg-type]
+			back = obs_forest(ser._deserialize_attrs(db, py_flatten(f)))
+			if back != f:
+				found('stub:rebuild', f'_deserialize_attrs(flatten f) shows {forest_sexp(back)[:200]} for f = {forest_sexp(f)[:200]}', rep)
+		except Exception as e:  # noqa: BLE001
+			found(f'stub:rebuild:raises:{exc_enum(e)}', str(e)[:200], rep)
+		# (c) table laws on a table in dependency order
+		if i % 2:
+			continue
+		eps = StubEntrypoints()
+		for n in nodes.values():
+			eps.add(n)
+		ser = ReflectionSerializer(eps, traits)  # type: ignore[arg-type]
+		db = SymbolDB()
+		spec: list[str] = []
+		for pos, k in enumerate(keys):
+			ff = gen_forest(rng, 1 + i % 3, 2, keys[:pos]) if pos and rng.random() < 0.6 else []
+			entries[k] = class_entry(traits, nodes[k], build_attrs(entries, ff))
+			db[k] = entries[k]
+			spec.append(f'class {k} {forest_sexp(ff)}')
+		for j in range(rng.randint(1, 8)):
+			m = rng.choice(MODS)
+			k = f'{m}#v{j}'
+			origin = entries[rng.choice(keys)]
+			var = eps.add(StubNode(m, f'file_input.assign[{j}]', k, False, True))
+			kind = rng.choice(['declare', 'declare', 'stack', 'to'])
+			e = origin.declare(var) if kind == 'declare' else origin.stack(var) if kind == 'stack' else entries[rng.choice(keys)].to(var, origin)  # type: ignore[arg-type]
+			ff = gen_forest(rng, 1 + i % 4, 3, keys, wide=i % 8 == 0) if rng.random() < 0.7 else []
+			if ff:
+				e.extends(*build_attrs(entries, ff))
+			db[k] = e
+			spec.append(f'{kind} {k} {forest_sexp(ff)}')
+		rep = {'table': spec}
+		for m in MODS:
+			try:
+				before = {k: stub_sym(s) for k, s in db.items(m)}
+				data = db.to_json(ser, m)
+				if list(data.keys()) != list(before.keys()):
+					found('stub:export-keys', f'export of {m}: keys {list(data)[:6]} for table keys {list(before)[:6]} (dependency-ordered table: the export order is the table order)', {**rep, 'module': m})
+				bad = order_violations(data, m)
+				if bad:
+					found('stub:order', f'export of {m} lists {bad[0][0]} before {bad[0][2]}', {**rep, 'module': m})
+				new = SymbolDB()
+				for k, s in db.items():
+					if k.split('#')[0] != m:
+						new[k] = s
+				new.import_json(ser, data)
+				after = {k: stub_sym(s) for k, s in new.items(m)}
+				if after != before:
+					k = next(k for k in before if after.get(k) != before[k])
+					found('stub:restore', f'{k}: {before[k]} -> {after.get(k)}', {**rep, 'module': m, 'row': data.get(k)})
+				if before and not new.completed(m):
+					found('stub:completed', f'{m} not completed after import', {**rep, 'module': m})
+				if [x for x in MODS if x != m and new.completed(x)]:
+					found('stub:completed-other', f'another module than {m} counts as completed', {**rep, 'module': m})
+				new.import_json(ser, data)
+				if {k: stub_sym(s) for k, s in new.items(m)} != after:
+					found('stub:import-twice', f'second import of {m} changes an entry', {**rep, 'module': m})
+				# unload removes exactly the module
+				new.unload(m)
+				if new.has_module(m) or new.completed(m) or len(new) != len(db) - len(before):
+					found('stub:unload', f'unload({m}) leaves entries or the completed mark', {**rep, 'module': m})
+			except Exception as e:  # noqa: BLE001
+				found(f'stub:table:raises:{exc_enum(e)}', f'{m}: {str(e)[:200]}', {**rep, 'module': m})
+	res.distinct = len(seen)
+	res.histogram = dict(hist) or {'ok': res.cases}
+	return res
 
 
 # ---------------------------------------------------------------------------------------------
@@ -911,6 +1027,9 @@ def load_programs(ctx: Ctx, stream: str, n_generated: int, real_modules: list[st
 				describe(s)  # resolves the lazy attribute / origin mods; a program tranp cannot type is outside the domain
 		except Exception as e:  # noqa: BLE001
 			stats[f'{kind}:unsupported:{exc_enum(e)}'] += 1
+			if kind in ('fixed', 'corpus'):
+				# these load on the unchanged tree: a failure is a finding of the search, not a skipped case
+				yield Loaded(name, None, f'{kind}-load-failed:{exc_enum(e)}:{str(e)[:160]}', srcs, entry), stats
 			continue
 		stats[f'{kind}:loaded'] += 1
 		yield Loaded(name, app, kind, srcs, entry), stats
@@ -923,6 +1042,7 @@ def load_programs(ctx: Ctx, stream: str, n_generated: int, real_modules: list[st
 				describe(s)
 		except Exception as e:  # noqa: BLE001
 			stats[f'real:unsupported:{exc_enum(e)}'] += 1
+			yield Loaded(m, None, f'real-load-failed:{exc_enum(e)}:{str(e)[:160]}', None, m), stats
 			continue
 		stats['real:loaded'] += 1
 		yield Loaded(m, rapp, 'real', None, m), stats
@@ -948,23 +1068,96 @@ def order_violations(data: dict[str, dict[str, Any]], mod: str) -> list[tuple[st
 	return out
 
 
+def forest_keys(f: Forest) -> list[str]:
+	out: list[str] = []
+	for k, cs in f:
+		out.append(k)
+		out.extend(forest_keys(cs))
+	return out
+
+
+def invariants_of(db: Any, data: dict[str, dict[str, Any]], mod: str) -> dict[str, bool]:
+	"""The hypotheses of the Lean theorems, evaluated on a real table (statistics for the evidence, not an oracle):
+	SymOK (C14.rt) and HoistSafe (C14.order_partial), written after lean/Tranp/Lemmas/SymbolJson.lean."""
+	import rogw.tranp.syntax.node.definition as defs
+	items = [(k, s) for k, s in db.items()]
+	table = dict(items)
+	base = {k for k in table if k.split('#')[0] != mod}
+
+	def refs(k: str) -> list[str]:
+		row = data.get(k)
+		if row is None:
+			return []
+		return ([row['origin'], row['via']] if row['class'] == 'Reflection' else []) + list(row['attrs'].values())
+
+	def good(f: Forest) -> bool:
+		for k, cs in f:
+			e = table.get(k)
+			if e is None or e.types.fullyname != k or (not cs and e.attrs) or not good(cs):
+				return False
+		return True
+
+	sym_ok = True
+	for k, s in items:
+		if k.split('#')[0] != mod:
+			continue
+		f = obs_forest(s.attrs)
+		if s.node.is_a(defs.ClassDef) and s.types == s.decl:
+			ok = s.node == s.types
+		else:
+			o = table.get(s.types.fullyname)
+			ok = o is not None and o.types == s.types and (bool(f) or not o.attrs)
+		sym_ok = sym_ok and ok and good(f)
+
+	def hoist_node(k: str, cs: Forest, E: set[str]) -> bool:
+		if k.split('#')[0] == mod and k not in E:
+			below = set(forest_keys(cs))
+			if not all(r in base or r in E or (r.split('#')[0] == mod and r in below) for r in refs(k)):
+				return False
+		return all(hoist_node(c, ccs, E) for c, ccs in cs)
+
+	hoist = True
+	E: set[str] = set()
+	for k, s in items:
+		if k.split('#')[0] != mod:
+			continue
+		root = (s.types.fullyname, obs_forest(s.attrs))
+		tree_keys = set(forest_keys([root]))
+		if not hoist_node(root[0], root[1], E):
+			hoist = False
+		if not all(r in base or r in E or (r.split('#')[0] == mod and r in tree_keys) for r in refs(k)):
+			hoist = False
+		E.add(k)
+	return {'SymOK': sym_ok, 'HoistSafe': hoist}
+
+
 def check_module(ld: Loaded, mod: str) -> list[Finding]:
-	"""the law of the property on one module of a loaded table (real code only)"""
+	"""the law of the property on one module of a loaded table (real code only); an exception of the real code is a finding"""
+	replay = {'program': ld.name, 'sources': ld.sources, 'entry': ld.entry, 'module': mod}
+	out: list[Finding] = []
+	stage = ['describe']
+	try:
+		_check_module(ld, mod, replay, out, stage)
+	except Exception as e:  # noqa: BLE001
+		out.append(Finding(key=f'{stage[0]}:raises:{exc_enum(e)}', what=f'{stage[0]} of {mod} raises {exc_enum(e)}: {str(e)[:200]}', replay=replay))
+	return out
+
+
+def _check_module(ld: Loaded, mod: str, replay: dict[str, Any], out: list[Finding], stage: list[str]) -> None:
 	from rogw.tranp.semantics.reflection.db import SymbolDB
 	from rogw.tranp.semantics.reflection.serialization import IReflectionSerializer
 	db = ld.app.resolve(SymbolDB)
 	ser = ld.app.resolve(IReflectionSerializer)
 	before = {k: describe(s) for k, s in db.items(mod)}
+	stage[0] = 'export'
 	data = db.to_json(ser, mod)
-	replay = {'program': ld.name, 'sources': ld.sources, 'entry': ld.entry, 'module': mod}
-	out: list[Finding] = []
 
 	def found(key: str, what: str, extra: dict[str, Any]) -> None:
 		out.append(Finding(key=key, what=what, replay={**replay, **extra}))
 
 	if set(data.keys()) != set(before.keys()):
 		found('export:key-set', f'export of {mod} has keys {sorted(set(data) ^ set(before))[:5]} more/less than the table', {})
-		return out
+		return
 	bad_order = order_violations(data, mod)
 	for k, kind, r in bad_order[:1]:
 		shape = data[k]['class']
@@ -975,14 +1168,16 @@ def check_module(ld: Loaded, mod: str) -> list[Finding]:
 	for k, s in db.items():
 		if k.split('#')[0] != mod:
 			new[k] = s
+	stage[0] = 'import'
 	try:
 		new.import_json(ser, data)
 	except Exception as e:  # noqa: BLE001
 		if not bad_order:
 			found(f'import:raises:{exc_enum(e)}', f'import of the export of {mod} raises {exc_enum(e)}: {str(e)[:200]}', {})
-		return out
+		return
 	if bad_order:
 		found('order:oracle-disagrees', 'import succeeded although a row refers to a later key', {'violations': bad_order[:3]})
+	stage[0] = 'describe-restored'
 	after = {k: describe(s) for k, s in new.items(mod)}
 	for k, b in before.items():
 		a = after.get(k)
@@ -992,13 +1187,18 @@ def check_module(ld: Loaded, mod: str) -> list[Finding]:
 			break
 	if before and not new.completed(mod):
 		found('completed', f'{mod} does not count as completed after import', {})
+	extra = [m for m in module_keys(new) if m != mod and new.completed(m)]
+	if extra:
+		found('completed:other-module', f'{extra[:3]} count as completed although only {mod} was imported', {})
+	stage[0] = 'import-again'
 	keys1 = list(new.keys())
-	new.import_json(ser, data)
-	again = {k: describe(s) for k, s in new.items(mod)}
-	if again != after or list(new.keys()) != keys1:
-		k = next((k for k in after if again.get(k) != after[k]), '?')
-		found('import-twice', f'second import changes {k}: {after.get(k)} -> {again.get(k)}', {'key': k})
-	return out
+	for _ in range(2):
+		new.import_json(ser, data)
+		again = {k: describe(s) for k, s in new.items(mod)}
+		if again != after or list(new.keys()) != keys1:
+			k = next((k for k in after if again.get(k) != after[k]), '?')
+			found('import-twice', f'a repeated import changes {k}: {after.get(k)} -> {again.get(k)}', {'key': k})
+			break
 
 
 def real_pass(ctx: Ctx) -> tuple[list[Stream], SearchResult]:
@@ -1013,7 +1213,17 @@ def real_pass(ctx: Ctx) -> tuple[list[Stream], SearchResult]:
 	seen: set[str] = set()
 	done: set[str] = set()
 	stats: Counter[str] = Counter()
-	for ld, stats in load_programs(ctx, 'real', ctx.scale(60, 1200), REAL_MODULES[:ctx.scale(3, len(REAL_MODULES))]):
+	inv_hist: Counter[str] = Counter()
+	inv_broken: list[str] = []
+	for ld, stats in load_programs(ctx, 'real', ctx.scale(36, 1000), REAL_MODULES[:ctx.scale(2, len(REAL_MODULES))]):
+		if ld.app is None:
+			res.cases += 1
+			key = f"load:{ld.kind.split(':')[0]}:{ld.kind.split(':')[1]}"
+			hist[key] += 1
+			if key not in seen_keys:
+				seen_keys.add(key)
+				res.findings.append(Finding(key=key, what=f'{ld.name} no longer loads: {ld.kind}', replay={'program': ld.name, 'sources': ld.sources, 'entry': ld.entry, 'module': ld.entry}))
+			continue
 		db = ld.app.resolve(SymbolDB)
 		ser = ld.app.resolve(IReflectionSerializer)
 		mods = module_keys(db)
@@ -1030,6 +1240,15 @@ def real_pass(ctx: Ctx) -> tuple[list[Stream], SearchResult]:
 			# search: the law
 			res.cases += 1
 			fnd = check_module(ld, m)
+			try:
+				inv = invariants_of(db, db.to_json(ser, m), m)
+				order_ok = not any(f.key.startswith('order:') for f in fnd)
+				inv_hist[f"SymOK={int(inv['SymOK'])},HoistSafe={int(inv['HoistSafe'])},order-law={'holds' if order_ok else 'fails'}"] += 1
+				if inv['HoistSafe'] and not order_ok:
+					# C14.order_partial says this cannot happen if model = code: report it as a broken tie, not as a failing input
+					inv_broken.append(f'{ld.name}:{m}')
+			except Exception as e:  # noqa: BLE001
+				inv_hist[f'invariants:raises:{exc_enum(e)}'] += 1
 			for f in fnd:
 				if f.key not in seen_keys:
 					seen_keys.add(f.key)
@@ -1045,14 +1264,20 @@ def real_pass(ctx: Ctx) -> tuple[list[Stream], SearchResult]:
 		ops, real = real_order_ops(db, order_mods)
 		ord_cases.append(({'kind': ld.kind, 'entries': len(db), 'name': ld.name}, ops, real))
 	res.distinct = len(seen)
-	res.histogram = {**dict(hist), **{f'load:{k}': v for k, v in stats.items()}}
+	res.histogram = {**dict(hist), **{f'load:{k}': v for k, v in stats.items()}, **{f'invariants:{k}': v for k, v in inv_hist.items()}}
+	s3 = Stream('invariants-real')
+	s3.cases = sum(inv_hist.values())
+	s3.distinct = len(inv_hist)
+	s3.histogram = dict(inv_hist)
+	s3.disagreements = [{'case': n, 'real': 'order law fails', 'model': 'HoistSafe holds, so C14.order_partial forbids it'} for n in inv_broken]
+	s3.note = 'hypotheses of C14.rt (SymOK) and C14.order_partial (HoistSafe) evaluated on each real table; a table with HoistSafe whose export violates the order law would contradict the theorem (model ≠ code)'
 	res.note = ('programs tranp cannot type (load or attribute resolution raises) are outside the domain and counted under load:*:unsupported; '
 		'empty modules (no symbol) are not asked to be `completed`: import_json marks a module only when it imports one of its keys (db.py:176-180)')
 	s1 = common.correspond('serialize-real', ser_cases, FAMILY, classify=lambda d: f"{d['kind']}:depth={min(d['depth'], 6)}{'+' if d['depth'] >= 6 else ''}:width{'>=10' if d['width'] >= 10 else '<10'}")
 	s1.note = f'real ReflectionSerializer.serialize on every symbol of each in-memory module of generated / fixed programs and of real modules (with their dependencies) vs model serialize; load statistics {dict(stats)}'
 	s2 = common.correspond('order-real', ord_cases, FAMILY, classify=lambda d: d['kind'])
 	s2.note = 'real SymbolDB._order_keys(module) and _order_keys(None) on the loaded tables vs model orderKeys on the skeleton (key, types.fullyname, attribute forest)'
-	return [s1, s2], res
+	return [s1, s2, s3], res
 
 
 # ---------------------------------------------------------------------------------------------
@@ -1061,15 +1286,17 @@ def real_pass(ctx: Ctx) -> tuple[list[Stream], SearchResult]:
 STATEMENTS = {
 	'C14.expand_eq_flatten': 'seqs.expand on an attribute forest (dict merges, accumulated paths) is the pre-order listing flatten f',
 	'C14.path_codec': "decoding the dotted decimal spelling of a non-empty index path gives the path back; its number of '.' is the depth",
-	'C14.attrs_rt': 'for every forest f (any width, any depth) whose keys the table holds as self-typed entries and whose leaves have attribute-less entries: the observable result of _deserialize_attrs on flatten f is f',
-	'C14.flatten_order': 'in the depth-sorted paths of flatten f the grouping scan sees every parent path exactly once (same-parent paths are consecutive)',
-	'C14.sort_spec': 'the depth sort is a permutation, ordered by depth and stable',
-	'C14.import_idem': 'importing the same rows twice gives the table of importing them once, when no row refers to its own or a later key',
+	'C14.sort_spec': 'the depth sort is a permutation, ordered by depth and stable (= Python sorted with that key)',
+	'C14.attrs_rt': 'for every forest f (any width, any depth) whose keys the table holds as self-typed entries and whose leaves have attribute-less entries: _deserialize_attrs on the export of f succeeds and shows f',
+	'C14.flatten_order': 'the groups of the scan over the depth-sorted paths of flatten f concatenate to the list, each has one parent path, and no parent occurs twice (same-parent paths are consecutive)',
 	'C14.completed': 'after import_json every module that owns an imported key counts as completed',
-	'C14.rt': 'export of module M, import into the table without M: every key of M is restored with the same types / node / decl / attribute forest (under the stated well-formedness and order hypotheses)',
-	'C14.order_statement (def)': 'for every closed table and module: no exported row refers to a key of the module that is not exported earlier',
-	'C14.order_counterexample': 'the statement is false: a function mentioning G[int] declared before G and its type parameter T is exported as G, f, T',
-	'C14.order_partial': 'the statement holds when every hoisted class has its own in-module references declared before the symbol that mentions it or beneath the mention',
+	'C14.import_idem': 'importing the same rows twice gives the table of importing them once, when no row refers to its own or a later key',
+	'C14.export_rows': 'to_json(M), M non-empty: one row per key of M, distinct keys in _order_keys order, each row = serialize of the table entry, all keys of M present',
+	'C14.rt': 'export of module M, import into the table of the other modules: succeeds, every key of M is restored with the same types / node / decl / attribute forest, M is completed — under SymOK (entry well-formedness) and the order law',
+	'C14.order_statement (def)': 'for every closed table and non-empty module: no exported row refers to a key of the module that is not exported earlier',
+	'C14.order_counterexample': 'the statement is false: the table of `def f(x: G[int])` / `T = TypeVar` / `class G(Generic[T])` is exported as G, f, T',
+	'C14.order_partial': 'the order law holds under HoistSafe: every hoisted class has its own references in other modules, declared before the mentioning symbol, or beneath the mention',
+	'C14.rt_hoistSafe': 'SymOK + HoistSafe alone give: import succeeds, restores every key of M, completes M, and a second import changes nothing',
 }
 
 
@@ -1080,7 +1307,8 @@ def run(ctx: Ctx) -> int:
 	with ctx.timed('real_pass(correspondence+search)'):
 		real_streams, law = real_pass(ctx)
 	streams += real_streams
-	searches = [law]
+	with ctx.timed('search_stub'):
+		searches = [law, search_stub_laws(ctx)]
 	return common.finish(ctx, proof, streams, searches,
 		statements=STATEMENTS,
 		partial={
